@@ -11,8 +11,10 @@ inductive Ev where
   | loc (c : Nat) (inIdle inPending : Bool)
   /-- the scheduler dispatched a check when the pending-checks counter was `counterBefore` -/
   | slot (counterBefore max : Int)
-  /-- the scheduler's decision for the entry it took: was the check forced, was it skipped -/
-  | decision (c : Nat) (forced skipped : Bool)
+  /-- the scheduler's decision for the due entry it took: was the check forced, was it skipped, and — from what the observer
+      itself configured, never from the code under test — was the checkable `eligible` at that moment: active checks enabled
+      (its own flag and the global flag of its type), inside its check period, no failed `disable_checks` dependency -/
+  | decision (c : Nat) (forced skipped eligible : Bool)
   /-- the check command of `c` started / delivered its result -/
   | execStart (c : Nat)
   | execEnd (c : Nat)
@@ -25,8 +27,10 @@ inductive Ev where
   /-- such an operation has completed (its ObjectHandler calls have returned): from now on `c` is / is not this node's to
       schedule (active ∧ ¬paused ∧ local zone) -/
   | authority (c : Nat) (schedulable : Bool)
-  /-- at quiescence (no operation in flight): attributes and membership of `c` -/
+  /-- at quiescence (no operation in flight, every dispatched helper has finished): attributes and membership of `c` -/
   | quiescent (c : Nat) (schedulable inIdle inPending : Bool) (key next : Int)
+  /-- at quiescence (no helper, no command, no plugin process left anywhere): the pending-checks counter -/
+  | quiescentCounter (k : Int)
   deriving Repr, DecidableEq
 
 inductive Clause where
@@ -41,6 +45,10 @@ inductive Clause where
   | dropped_from_schedule   -- schedulable (operation completed) but in neither set at a lock release
   | quiescent_location      -- schedulable but in no set / unschedulable but in a set / in both
   | quiescent_key           -- idle under a key that is not its next_check
+  | eligible_skipped        -- due, active checks enabled, inside its period, no failed dependency — and not executed
+  | ran_although_disabled   -- not forced and active checks disabled / period closed / dependency failed — and executed
+  | quiescent_pending       -- every helper has finished and the checkable is still in the pending set: it never comes back
+  | slot_leaked             -- nothing is running any more and the pending-checks counter is not 0: a concurrency slot is lost
   deriving Repr, DecidableEq
 
 def Clause.name : Clause → String
@@ -55,6 +63,17 @@ def Clause.name : Clause → String
   | .dropped_from_schedule => "dropped_from_schedule"
   | .quiescent_location => "quiescent_location"
   | .quiescent_key => "quiescent_key"
+  | .eligible_skipped => "eligible_skipped"
+  | .ran_although_disabled => "ran_although_disabled"
+  | .quiescent_pending => "quiescent_pending"
+  | .slot_leaked => "slot_leaked"
+
+/-- "with active checks enabled and inside its check period" in the property's terms, over facts the observer controls:
+    the object's own `enable_active_checks`, the global `enable_host_checks` / `enable_service_checks` (whichever applies to
+    its type), its check period, and its explicit `disable_checks` dependencies.  (The implicit dependency of a service on its
+    host is about state and notifications, not about check execution: a service of a DOWN host keeps being checked.) -/
+def eligible (isService own hostChecks svcChecks inPeriod depOk : Bool) : Bool :=
+  own && (if isService then svcChecks else hostChecks) && inPeriod && depOk
 
 /-- Specification state: the checkables whose command is executing right now, and for every checkable whose last
     authority-changing operation has completed whether it is this node's to schedule. -/
@@ -86,7 +105,11 @@ def specStep (sp : SpecSt) : Ev → Option Clause
   | .opBegin _ => none
   | .authority _ _ => none
   | .slot k m => if 0 ≤ k ∧ k < m then none else some .concurrency_slot
-  | .decision _ f s => if f && s then some .forced_runs else none
+  | .decision _ f s e =>
+    if f && s then some .forced_runs
+    else if !f && e && s then some .eligible_skipped
+    else if !f && !e && !s then some .ran_although_disabled
+    else none
   | .execStart c =>
     if sp.executing.contains c then some .single_flight
     else if sp.max < (sp.executing.length + 1 : Nat) then some .concurrency_bound
@@ -96,7 +119,9 @@ def specStep (sp : SpecSt) : Ev → Option Clause
   | .quiescent _ s i p k nx =>
     if (i && p) || (s != (i || p)) then some .quiescent_location
     else if i && k != nx then some .quiescent_key
+    else if p then some .quiescent_pending
     else none
+  | .quiescentCounter k => if k = 0 then none else some .slot_leaked
 
 def specNext (sp : SpecSt) : Ev → SpecSt
   | .execStart c => { sp with executing := c :: sp.executing }
